@@ -5,16 +5,16 @@ ROOT = os.path.dirname(os.path.dirname(os.path.abspath(__file__)))
 PROPS = [f"C{n:02d}" for n in range(1, 21)]
 # id -> (level, technique, text, note, design_ref)
 CLAIMED = {
- "C01": ("exploration", "property-based testing against an exact-arithmetic reference model (proptest, model-guided history generator)",
+ "C01": ("exploration", "property-based testing against an exact-arithmetic reference model (proptest, model-guided history generator); thorough tier adds a coverage-guided libFuzzer campaign that decodes bytes into the same generator's intents (ledger_intents)",
          "Generated histories (all five actions, several affiliates/securities/currencies, non-terminating quantities, shuffled file order, opening positions) are run through the real CSV->ledger path and every row (shares, all-affiliate shares, ACB, gain, SfL, automatic adjustments) is compared within 1e-9 with an independent exact rational model. Exploration is the right level: the property quantifies over all histories and has an executable oracle.",
          "Trusts harness/src/model.rs (written from the property text; self-tested) and harness/src/bigrat.rs (self-tested against python fractions). Totals kept below 1e13.", "DESIGN.md section 4 C01"),
  "C02": ("exploration", "property-based testing against the reference model with boundary-weighted window scenarios and a deterministic (offset x order x buyer) sweep",
          "Loss sales with acquisitions, later sales and splits at offsets -61..+61 (every boundary day, same-day before/after) by selling/other/registered affiliates; denied amount, ratio, gain, adjustments and accept/reject of declared values compared with the exact model.",
          "Same trusted base as C01. Declared values on registered sellers are not generated.", "DESIGN.md section 4 C02"),
- "C03": ("exploration", "property-based testing of a model-free accounting identity at every prefix (plus model-based apportioning)",
+ "C03": ("exploration", "property-based testing of a model-free accounting identity at every prefix (plus model-based apportioning); thorough tier adds the coverage-guided ledger_intents libFuzzer campaign with the same oracle",
          "For histories of non-registered affiliates the identity gains = proceeds - costs + RoC + ACB held is evaluated exactly after every transaction from the input rows' cash flows and the tool's rows; adjustments never exceed the denied loss, never go to registered affiliates, go only to buyers in the window, pro rata to end-of-window holdings.",
          "Identity needs no model; the pro-rata part trusts model.rs.", "DESIGN.md section 4 C03"),
- "C04": ("exploration", "property-based testing: valid histories must be accepted, histories with one planted cause must be rejected visibly (reference model decides), row invariants on every row",
+ "C04": ("exploration", "property-based testing: valid histories must be accepted, histories with one planted cause must be rejected visibly (reference model decides), row invariants on every row; thorough tier adds the coverage-guided ledger_intents libFuzzer campaign on the accept side",
          "Both directions of the iff are explored: generated valid histories (incl. non-terminating split factors) must not be rejected; each listed cause planted at a chosen row must be rejected with a message naming the row, the exact ledger prefix shown, the security excluded from totals, in text, CSV-writer and render-model modes.",
          "Reference model decides which histories contain a listed cause. One known finding (R5, rounding residue after chains of non-terminating splits) is excluded by a root-cause classifier.", "DESIGN.md section 4 C04"),
  "C07": ("exploration", "metamorphic property-based testing: generated input vs generated re-layout (files, columns, headers, unknown columns, admissible row permutation)",
@@ -38,7 +38,7 @@ CLAIMED = {
  "C15": ("exploration", "metamorphic property-based testing: history vs history with an inserted split and restated later rows",
          "Window scenarios built so that the restated history is exactly representable (quantities multiples of 3, later per-share amounts multiples of a) are run with and without an a-for-b split (16 ratios: forward, reverse, fractional; one row for all or one per affiliate; any position relative to the loss sale's window); gains, superficial losses, total ACB and adjustments must agree and share balances scale by a/b.",
          "Base histories contain no other split. Differences explained by the recorded rounding-residue findings (R1b/R5) are excluded by their classifiers.", "DESIGN.md section 4 C15"),
- "C11": ("exploration", "round-trip property-based testing (write -> read -> compare -> write -> compare bytes)",
+ "C11": ("exploration", "round-trip property-based testing (write -> read -> compare -> write -> compare bytes); thorough tier adds reader-first libFuzzer campaigns (structure-aware csv_cells, byte-level csv_roundtrip) checking R(W(R(b))) = R(b)",
          "Generated lists of valid transactions (all actions, 28-digit decimals, every affiliate spelling, split-ratio forms, declared SfL with force flag, hostile memos) are written with write_txs_to_csv, re-read with parse_tx_csv + Tx::try_from, compared field by field, and written again; the bytes must repeat.",
          "Transactions are built through the library's own public types; split-ratio terms below 1e9.", "DESIGN.md section 4 C11"),
  "C12": ("exploration", "property-based testing against a 15-line reference function over generated publication calendars served by a fake Bank of Canada endpoint",
